@@ -245,4 +245,11 @@ theorem storage_bytes_agree : ∀ s ∈ colorTable, ∀ c, s.Valid c →
     color_norm
     color_close)
 
+/-- a gray value is `new` of its own luma -/
+theorem grayNew_luma_id : ∀ s ∈ colorTable, s.kind = .gray → ∀ c, s.Valid c → s.grayNew (s.luma c) = c := by
+  intro s hs
+  each_color hs
+  all_goals (intro hk; first | exact absurd hk (by decide) | skip)
+  all_goals (intro c hc; color_norm_at hc; color_norm; color_close)
+
 end EG.Color
